@@ -190,6 +190,72 @@ func unrollLiteralAppendLoop(x *ssa.Phi) (ssa.Value, []string, bool) {
 		return nil, nil, false
 	}
 	// the appended element is literal[i] of the loop's own index, the literal a fully known list
+	if ix, isIx := t[0].V.(*ssa.Index); isIx {
+		// ... an array literal ranged over by value: `for _, v := range [...]*big.Int{a, b}`
+		arr, isLd := ix.X.(*ssa.UnOp)
+		if !isLd {
+			return nil, nil, false
+		}
+		al, isAl := arr.X.(*ssa.Alloc)
+		if !isAl || al.Comment != "complit" || desc(ix.Index) != inductionName(l.Header) {
+			return nil, nil, false
+		}
+		vals := map[int64]ssa.Value{}
+		for _, r := range referrersOf(al) {
+			switch u := r.(type) {
+			case *ssa.IndexAddr:
+				k, isK := constInt(u.Index)
+				if !isK {
+					return nil, nil, false
+				}
+				for _, rr := range referrersOf(u) {
+					if st, isSt := rr.(*ssa.Store); isSt && st.Addr == ssa.Value(u) {
+						if _, dup := vals[k]; dup {
+							return nil, nil, false
+						}
+						vals[k] = st.Val
+					}
+				}
+			case *ssa.UnOp, *ssa.DebugRef:
+			default:
+				return nil, nil, false
+			}
+		}
+		// the loop runs over the whole array: i+1 < len with len the number of elements
+		full := false
+		for _, ins := range l.Header.Instrs {
+			if bo, isB := ins.(*ssa.BinOp); isB && bo.Op == token.LSS {
+				if k, isK := constInt(bo.Y); isK && k == int64(len(vals)) {
+					if add, isAdd := bo.X.(*ssa.BinOp); isAdd && add.Op == token.ADD {
+						if ph, isPhi := add.X.(*ssa.Phi); isPhi && isInduction(ph) {
+							full = true
+						}
+					}
+				}
+			}
+		}
+		if !full || len(vals) == 0 || len(vals) > 8 {
+			return nil, nil, false
+		}
+		var conds []Atom
+		for _, a := range controllingConds(app.Block()) {
+			if ins, isI := a.V.(ssa.Instruction); isI && l.Body[ins.Block()] && ins.Block() != l.Header {
+				conds = append(conds, normAtom(a))
+			}
+		}
+		if len(conds) != 1 || desc(conds[0].V) != "("+t[0].D+"!=nil)" || conds[0].Want != True {
+			return nil, nil, false
+		}
+		var out []string
+		for k := int64(0); k < int64(len(vals)); k++ {
+			v, has := vals[k]
+			if !has {
+				return nil, nil, false
+			}
+			out = append(out, fmt.Sprintf("?%s if (%s!=nil) is true", desc(v), desc(v)))
+		}
+		return init, out, true
+	}
 	ld, isLoad := t[0].V.(*ssa.UnOp)
 	if !isLoad {
 		return nil, nil, false
@@ -593,6 +659,9 @@ func getHashNumberRule(P *Program, R *Report) {
 					for _, j := range l.Header.Instrs {
 						if b, ok := j.(*ssa.BinOp); ok && b.Op.String() == "<" && b.X == ssa.Value(phi) && desc(b.Y) == "arg#3" {
 							okLoop = true
+						}
+						if b, ok := j.(*ssa.BinOp); ok && b.Op.String() == ">" && b.Y == ssa.Value(phi) && desc(b.X) == "arg#3" {
+							okLoop = true // bitlen > k
 						}
 					}
 					// shift by k
